@@ -135,6 +135,14 @@ D20_CORPUS = [
 
 def run(ctx, res):
     cases = D20_CORPUS + build_cases(ctx)
+    if ctx.tier == "thorough" and not ctx.searching:
+        # exhaustive small scope: EVERY history of length <= 4 (asyncio) / <= 3 (threaded) over a 12-letter alphabet
+        xs = (gwcheck.small_scope_cases("c05", 4, versions=("2.0", "2.2"), flavours=("async",))
+              + gwcheck.small_scope_cases("c05", 3, versions=("1.4", "1.5", "2.1"), flavours=("async",))
+              + gwcheck.small_scope_cases("c05", 3, flavours=("sync",)))
+        res.extra["exhaustive_subspaces"] = [f"all {len(xs)} histories of length <= 4 (asyncio 2.0, 2.2) / <= 3 (asyncio other versions, threaded all versions) over "
+                                             "gwcheck.SMALL_ALPHABET, 5 versions"]
+        cases = cases + xs
     recs = gwcheck.run_cases(ctx, res, cases, MONITORS, SCOPE, "c05")
     if ctx.model is not None:
         items = [(i, gwrun.VERSIONS.index(r["case"]["cfg"]["ver"]), emitted_strings(r["impl"])) for i, r in enumerate(recs)]
